@@ -1,6 +1,6 @@
 ----------------------------- MODULE MC_WinObj -----------------------------
 (* the WIN object as a state machine: an object read from a preset file, then every sequence (length <= MAXLEN) of
-   __setitem__ / __delitem__ / update from a pool of entries and of write(seedname) followed by from_w90_file(seedname)
+   __setitem__ / __delitem__ / update from a pool of entries, of to_npz + from_npz, and of write(seedname) followed by from_w90_file(seedname)
    (under the object's own name or under another one).  `hist` keeps the behaviour (one state = one behaviour), `prev` the
    dictionary before the last action, `disk` the file written last, `loaded` what reading it back gave. *)
 EXTENDS MC_WinRead
@@ -48,7 +48,11 @@ DoWriteRead(t) ==
         /\ disk' = f /\ loaded' = r /\ target' = t
         /\ hist' = Append(hist, [Entry0("write_read") EXCEPT !.id = t, !.err = r.err])
    /\ prev' = data /\ UNCHANGED data
+(* to_npz(f) ; WIN.from_npz(f): as_dict() leaves out the entries that are None, from_dict() puts the rest into a new object *)
+DoNpz == /\ Room /\ data' = [k \in {j \in DOMAIN data : data[j].t # "none"} |-> data[k]] /\ prev' = data
+         /\ hist' = Append(hist, Entry0("npz")) /\ UNCHANGED <<disk, loaded, target>>
 ONext == (\/ \E id \in POOL : DoSet(id)
+          \/ DoNpz
           \/ \E k \in DelKeys : DoDel(k)
           \/ \E id \in {"mesh", "two"} : DoUpdate(id)
           \/ \E t \in {Seed, Other} : DoWriteRead(t))
@@ -65,6 +69,8 @@ DelRemoves == LastE.op = "del" => /\ ~HasKey(data, LastE.id) /\ \A k \in DOMAIN 
                                  /\ (~HasKey(prev, LastE.id) => data = prev)
 UpdateLaw == LastE.op = "update" => /\ \A k \in DOMAIN UpdDict(LastE.id) : data[k] = UpdDict(LastE.id)[k]
                                    /\ SameBut(data, prev, DOMAIN UpdDict(LastE.id))
+(* an object saved to .npz and loaded again holds the same dictionary *)
+NpzKeeps == LastE.op = "npz" => SameData(data, prev)
 WR == LastE.op = "write_read"
 (* the written file is well formed and names every entry that is not None exactly once (atoms_names go into the atoms block) *)
 FileKeys(f) == LET F == Significant(f) IN {F[p].name : p \in {r \in 1..Len(F) : F[r].k \in {"param", "begin"}}}
